@@ -27,6 +27,8 @@ EXPLANATION = (
   ' (STATE-share) no assignment stores a container field of one object (a field the package updates in place) into a field of another object without copying it, so an in-place update of one object never changes another;'
   " (ITEM-source) an object built once per item of an inner loop is filled only with values that derive from that item or do not vary with the loops, never with a value of the enclosing container standing where the item's own belongs;"
   ' (NUL-known) no local is dereferenced at a point where a dominating test has established that it is None and nothing has assigned it since (the test and the dereference would contradict each other);'
+  ' (LINT-m) the SCC line pattern lists no literal separators beside an unescaped `.`;'
+  ' (LOOP-break) no loop over the items of a collection is left by a branch that does nothing but `break` on a test about the item (end-of-input sentinels, flags set in the loop body and searches whose variable is read afterwards excepted): an item that is to be skipped does not end the processing of the items after it;'
 )
 RULE_TEXT = "per table entry, per helper x domain point (aggregated per helper), per word (aggregated), per structural shape"
 UNDECIDED = ["nothing of substance; the glyph choice for six line-drawing/dash extended characters admits light or heavy Unicode forms",
@@ -486,6 +488,27 @@ def check_classification(ctx, tables, order, guarded):
       pac_cache[k] = fe.call(gr, {gr.params[0]: b1, gr.params[1]: b2}) is not None and fe.call(gd, {gd.params[0]: b2}) is not None
     return pac_cache[k]
 
+  from ..consteval import _CallingConstEval, NotConst as _NC, Raised as _Rs
+  fcode = w.methods["_find_code"]
+
+  class _FindCE(_CallingConstEval):
+    """`<CodeClass>.find(...)` is answered from the extracted tables (and the evaluated PAC helpers); everything else of
+    _find_code - guards, dispatch on bytes, `or` chains - is evaluated as written."""
+
+    def _ev(self, m, e, cls, env):
+      if isinstance(e, ast.Call) and isinstance(e.func, ast.Attribute) and e.func.attr == "find" and unparse(e.func.value) in name_to_kind:
+        k = name_to_kind[unparse(e.func.value)]
+        args = [self._ev(m, a, cls, env) for a in e.args]
+        if k == "pac":
+          if len(args) == 2 and is_pac(args[0], args[1]):
+            return ("pac", 2 if args[0] & 0x08 else 1)
+          return None
+        if len(args) == 1 and args[0] in value_sets[k]:
+          name, idx = value_sets[k][args[0]]
+          return (k, 1 if idx == 0 else (2 if idx == 1 else None))
+        return None
+      return super()._ev(m, e, cls, env)
+
   def code_class(b1, b2):
     value = b1 * 0x100 + b2
     if value == 0:
@@ -494,14 +517,18 @@ def check_classification(ctx, tables, order, guarded):
       return ("text", None)
     if not (0x10 <= b1 <= 0x1F):
       return ("unknown", None)
-    for k in kinds_order:
-      if k == "pac":
-        if is_pac(b1, b2):
-          return ("pac", 2 if b1 & 0x08 else 1)
-      elif k is not None and value in value_sets[k]:
-        name, idx = value_sets[k][value]
-        return (k, 1 if idx == 0 else (2 if idx == 1 else None))
-    return ("unknown", None)
+    env = {"self.value": value, "self.byte_1": b1, "self.byte_2": b2}
+    ce = _FindCE(ix, fe, fcode, 0, w)
+    try:
+      try:
+        r = fe._block(ce, fcode, fcode.node.body, env)
+      except Exception as ex:
+        if type(ex).__name__ != "_Return":
+          raise
+        r = ex.value
+    except (_NC, _Rs) as ex:
+      raise AnalysisError(f"SccWord._find_code leaves the evaluable subset for word {hex(value)} ({ex})")
+    return r if isinstance(r, tuple) else ("unknown", None)
 
   wrong = []
   seen_classes = {}
@@ -518,7 +545,7 @@ def check_classification(ctx, tables, order, guarded):
   ctx.extra["class_histogram"] = seen_classes
   ctx.extra["exhaustive"] = True
   ctx.check(not wrong, "CLS", "all 65,536 words|class and channel", w.module.rel,
-            f"every word has exactly the class and channel CEA-608 gives ({seen_classes})",
+            f"_find_code evaluated on every code word with find() answered from the tables: every word has exactly the class and channel CEA-608 gives ({seen_classes})",
             "words decoded differently from CEA-608: " + "; ".join(f"{hex(wd)}: got {g}, want {wt}" for wd, g, wt in wrong[:5]) + f" ({len(wrong)} words)")
   return n
 
@@ -596,4 +623,5 @@ def run(ctx):
   check_disassembly_colors(ctx, tables)
   ctx.extra["finite_domain_evaluations"] = evals + n
   common.check_known_none(ctx, [n for n in ctx.ix.modules if n.startswith("ttconv.scc")])
+  common.check_regexes(ctx, ["ttconv.scc.line", "ttconv.time_code"], whole=False, floor=0)
   common.check_history_independence(ctx, [n for n in ctx.ix.modules if n.startswith("ttconv.scc")])
